@@ -64,6 +64,7 @@ def check(cx):
         'R8.5 every privileged letter used without the privilege is answered 482',
         'R8.6 every applied change is appended to the announcement with its own letter, sign and stored parameter, and the announcement goes to all members',
         'R8.7 every mode field written here is read by the enforcing handler and rendered by MODE query',
+        'R8.9 (imported) the ten Channel::add_*/remove_* methods the rank letters call update both the rank set and the member flag (C04 R4.4)',
         'R8.8 parameter cursor lock-step: for every parameter-taking letter the handler consumes one argument exactly where validate_channelmodes counted one (per letter and sign); an argument may stay unconsumed only on paths where the actor holds no privilege at all, so that a later letter of the same mode word can never be applied to a shifted parameter',
     ]
     ck.does_not_decide += ['that a concrete later JOIN/PRIVMSG observes the change (follows from R8.7 + C07/C10 on the same fields)']
@@ -276,6 +277,10 @@ def check(cx):
     r5.instance('441 for rank changes on non-members')
     if not e441:
         r5.violation('process_mode_channel|no-441', 'a rank change on a non-member is not answered with 441', loc=fc)
+
+    # ---------------------------------------------------------------- R8.9 imported: what add_*/remove_* do
+    r9 = cx.rule('R8.9', 'rank methods update set and flag (imported)', floor=1, kind='dependency')
+    depends(cx, r9, 'C04', ('R4.4',), 'Channel::add_*/remove_* update exactly (rank set, member flag)', only=r'^Channel::(add|remove)_(operator|half_operator|voice|founder|protected)\|')
 
     # ---------------------------------------------------------------- R8.8 parameter cursor
     r8 = cx.rule('R8.8', 'parameter cursor lock-step with the validator', floor=10, kind='agreement')
